@@ -143,7 +143,35 @@ pub fn cont_maps() {
               Err(e) => { oblige!(ex.log.n > 0, "C06:unparsable_key_or_faulty_value_fails_the_call"); oblige!(e.same(&rec::global()) && agree_until_stop(&e, &ex.log) && (!no_stop(&e) || e.n == ex.log.n) && stop_then_handover(&e), "C01,C02,C03,C04:map_reports") } }
 }
 
+
+/// C15 for the std map targets: three entries with distinct keys in all six orders, keep-going error type: same map, same
+/// multiset of reports (native execution only)
+pub fn order_maps_3() {
+    const PERMS: [[usize; 3]; 6] = [[0, 1, 2], [0, 2, 1], [1, 0, 2], [1, 2, 0], [2, 0, 1], [2, 1, 0]];
+    let k = [nd::below(4), nd::below(4), nd::below(4)];
+    nd::assume(k[0] != k[1] && k[0] != k[2] && k[1] != k[2]);
+    let v = [any_val(), any_val(), any_val()];
+    let o = ValuePointerRef::Origin; let l = o.push_index(1);
+    let run_b = |p: &[usize; 3]| { reset_all(&D_CONT); rec::set_policy(1); let mut i = 0; while i < 3 { put_entry(i as u8, k[p[i]], v[p[i]]); i += 1; } <BTreeMap<u8, Leaf> as Deserr<Rec>>::deserialize_from_value::<KV>(to_value(Node::Map(0, 3)), l) };
+    let run_h = |p: &[usize; 3]| { reset_all(&D_CONT); rec::set_policy(1); let mut i = 0; while i < 3 { put_entry(i as u8, k[p[i]], v[p[i]]); i += 1; } <HashMap<u8, Leaf> as Deserr<Rec>>::deserialize_from_value::<KV>(to_value(Node::Map(0, 3)), l) };
+    let (fb, fh) = (run_b(&PERMS[0]), run_h(&PERMS[0]));
+    let mut q = 1;
+    while q < 6 {
+        match (&fb, &run_b(&PERMS[q])) {
+            (Ok(a), Ok(b)) => { oblige!(a.len() == b.len() && a.iter().all(|(k, x)| b.get(k).map(lv) == Some(lv(x))), "C15:same_value_for_both_member_orders"); }
+            (Err(a), Err(b)) => { oblige!(crate::h_derive::same_multiset(a, b), "C15:same_set_of_reports_for_both_member_orders"); }
+            _ => { oblige!(false, "C15:same_outcome_for_both_member_orders"); }
+        }
+        match (&fh, &run_h(&PERMS[q])) {
+            (Ok(a), Ok(b)) => { oblige!(a.len() == b.len() && a.iter().all(|(k, x)| b.get(k).map(lv) == Some(lv(x))), "C15:same_value_for_both_member_orders"); }
+            (Err(a), Err(b)) => { oblige!(crate::h_derive::same_multiset(a, b), "C15:same_set_of_reports_for_both_member_orders"); }
+            _ => { oblige!(false, "C15:same_outcome_for_both_member_orders"); }
+        }
+        q += 1;
+    }
+}
+
 pub fn registry() -> Vec<(&'static str, crate::Body)> {
     vec![("cont_vec", cont_vec as crate::Body), ("cont_array2", cont_array2), ("cont_tuple2", cont_tuple2), ("cont_tuple3", cont_tuple3),
-         ("cont_option_box", cont_option_box), ("cont_sets", cont_sets), ("cont_maps", cont_maps)]
+         ("cont_option_box", cont_option_box), ("cont_sets", cont_sets), ("cont_maps", cont_maps), ("order_maps_3", order_maps_3)]
 }
